@@ -12,7 +12,7 @@ try:
 except ImportError:          # the runtime half lives in its own module
     c17life = None
 
-LEAN_TARGETS = ["LyModel.Props.C17"]
+LEAN_TARGETS = ["LyModel.Props.C17", "LyModel.Props.C17L1"]
 AUDIT = "Audit/C17.lean"
 GENERATED = ["Consts"]
 ASSUMPTIONS = [
